@@ -30,7 +30,7 @@ func (s *Server) Search(ctx context.Context, req *webserverv1.SearchRequest) (*w
 		return nil, status.Error(codes.InvalidArgument, err.Error())
 	}
 
-	res, err := s.streamer.Search(ctx, q, zoekt.SearchOptionsFromProto(req.GetOpts()))
+	res, err := s.streamer.Search(ctx, q, searchOptionsFromRequest(req))
 	if err != nil {
 		return nil, err
 	}
@@ -49,11 +49,21 @@ func (s *Server) StreamSearch(req *webserverv1.StreamSearchRequest, ss webserver
 	sender := gRPCChunkSender(ss)
 	sampler := newSamplingSender(sender)
 
-	err = s.streamer.StreamSearch(ss.Context(), q, zoekt.SearchOptionsFromProto(request.GetOpts()), sampler)
+	err = s.streamer.StreamSearch(ss.Context(), q, searchOptionsFromRequest(request), sampler)
 	if err == nil {
 		sampler.Flush()
 	}
 	return err
+}
+
+// searchOptionsFromRequest converts the options of a request. Searchers
+// dereference the options, so a request that leaves them unset gets the zero
+// options (as the JSON API does) instead of nil.
+func searchOptionsFromRequest(req *webserverv1.SearchRequest) *zoekt.SearchOptions {
+	if opts := zoekt.SearchOptionsFromProto(req.GetOpts()); opts != nil {
+		return opts
+	}
+	return &zoekt.SearchOptions{}
 }
 
 func (s *Server) List(ctx context.Context, req *webserverv1.ListRequest) (*webserverv1.ListResponse, error) {
